@@ -42,6 +42,8 @@ def gen_history(r, depth, kinds):
             evs.append(("send", nsend))
         elif k == "ack":
             evs.append(("ack", None))           # matching ACK, resolved at run time
+        elif k == "acks":
+            evs.append(("acks", r.randrange(4)))    # several acknowledgements (and data frames) in ONE read
         elif k.startswith("ack"):
             evs.append(("ackn", int(k[3:])))
         elif k == "data":
@@ -65,7 +67,7 @@ def run_history(ctx, r, evs):
             if r.random() < 0.35:
                 w.loop.nudge(r.choice([0.2, 0.5, 0.8]))      # virtual time passes between events (no timer fires)
             m = w.mark()
-            before = priv.pack_seq(w.p)
+            before = priv.pack_seq(w.p, None)
             if kind == "send":
                 f, tok, fl = make_frame(r, arg)
                 sent_flags[arg] = fl
@@ -78,6 +80,25 @@ def run_history(ctx, r, evs):
                 tokens.append("R:" + hx(b))
                 w.rx(b)
                 label = "ACK(current)" if k == before else "ACK(other)"
+            elif kind == "acks":
+                # one read: ACK(current), possibly a data frame, ACK(next), possibly ACK(next-but-one) / a stale one
+                cur = priv.pack_seq(w.p)
+                nxt = cur % 3 + 1
+                parts, acked = [streams.ack(cur)], [cur]
+                if arg & 1:
+                    parts.append(streams.command_frame(r, r.randrange(4)))
+                parts.append(streams.ack(nxt)); acked.append(nxt)
+                if arg & 2:
+                    third = r.choice([nxt % 3 + 1, cur, 0])
+                    parts.append(streams.ack(third)); acked.append(third)
+                b = b"".join(parts)
+                tokens.append("R:" + hx(b))
+                w.rx(b)
+                e, k = cur, 0
+                for v in acked:                 # each acknowledgement is judged against the number current when it is read
+                    if v == e:
+                        e, k = e % 3 + 1, k + 1
+                label = "ACKs:%d" % k
             elif kind == "data":
                 b = streams.command_frame(r, arg)
                 tokens.append("R:" + hx(b))
@@ -112,9 +133,9 @@ def run_history(ctx, r, evs):
             entries = [e for e in w.since(m) if e != "CLOSE"]
             steps.append(vloop.canon_step(entries))
             writes = [bytes.fromhex(e[1:]) for e in entries if e.startswith("W")]
-            obs.append((label, before, priv.pack_seq(w.p), [x for x in writes if not x[5] & 1]))
+            obs.append((label, before, priv.pack_seq(w.p, None), [x for x in writes if not x[5] & 1]))
             run_history.times.append(w.loop.time())
-        final_seq = priv.pack_seq(w.p)
+        final_seq = priv.pack_seq(w.p, None)
     finally:
         w.shutdown()
     return tokens, steps, obs, final_seq, sent_flags
@@ -144,19 +165,29 @@ def check_c08(ctx, evs, tokens, obs, sent_flags):
                 ctx.counterexample("stamp-crc", inp, "valid CRC8", hx(raw[:7]), "stamped header checksum invalid")
             if orig is not None and raw[5] != (orig | (seq << 2)):
                 ctx.counterexample("stamp-flags", inp, orig | (seq << 2), raw[5], "stamped flags are not original | seq<<2")
-            if seq not in (before, after):
+            if before is not None and seq not in (before, after) and not label.startswith("ACKs:"):
                 ctx.counterexample("seq-stamp", inp, (before, after), seq, "frame stamped with a number that is not current")
-        if before != expect:
+        expect_before = expect
+        if before is not None and before != expect:
             ctx.counterexample("seq-drift", inp, expect, before, "sequence number changed between events")
         if label == "ACK(current)":
             expect = expect % 3 + 1
+        elif label.startswith("ACKs:"):
+            for _ in range(int(label[5:])):
+                expect = expect % 3 + 1
         elif label == "close":
             expect = 0
-        if after != expect:
+        if after is not None and after != expect:
             ctx.counterexample("seq-automaton", inp, expect, after,
                                "after %s the sequence number is %d, expected %d" % (label, after, expect))
-        if after not in (0, 1, 2, 3):
+        if after is not None and after not in (0, 1, 2, 3):
             ctx.counterexample("seq-range", inp, "0..3", after, "sequence number out of range")
+        # what is visible on the wire whether or not the field can be read: a frame written by this event carries the
+        # number valid before or after the event
+        for raw in data_writes:
+            seq = (raw[5] >> 2) & 3
+            if seq not in (expect_before, expect) and not label.startswith("ACKs:"):
+                ctx.counterexample("seq-stamp", inp, (expect_before, expect), seq, "frame stamped with a number that is not current")
 
 
 def drive(ctx, histories, prop_checker):
@@ -168,7 +199,7 @@ def drive(ctx, histories, prop_checker):
         ctx.case(tuple(tokens), nontrivial=len(set(labels)) >= 3,
                  sample=dict(events=[t[:24] for t in tokens[:10]], steps=[[e[:20] for e in s] for s in steps[:10]]))
         for o in obs:
-            ctx.count("pair:seq%d/%s" % (o[1], o[0]))
+            ctx.count("pair:seq%s/%s" % ("?" if o[1] is None else o[1], o[0]))
         prop_checker(ctx, evs, tokens, obs, sent_flags, steps)
         lines.append("link " + " ".join(tokens))
         metas.append((tokens, steps, final_seq))
@@ -177,7 +208,7 @@ def drive(ctx, histories, prop_checker):
         for (tokens, steps, final_seq), a in zip(metas, ans):
             msteps, tail = model_steps(a)
             mseq = int(tail.split(" ")[0][4:])
-            if msteps != steps or mseq != final_seq:
+            if msteps != steps or (final_seq is not None and mseq != final_seq):
                 bad = next((i for i, (x, y) in enumerate(zip(msteps, steps)) if x != y), len(steps))
                 ctx.mismatch("link", dict(events=tokens, first_differing_step=bad),
                              dict(step=msteps[bad] if bad < len(msteps) else None, seq=mseq),
@@ -185,7 +216,7 @@ def drive(ctx, histories, prop_checker):
             ctx.traces += 1
 
 
-KINDS = ["send"] * 4 + ["ack"] * 4 + ["ack0", "ack1", "ack2", "ack3", "data", "data", "tick", "tick", "close", "reconnect", "rflag"]
+KINDS = ["send"] * 4 + ["ack"] * 4 + ["ack0", "ack1", "ack2", "ack3", "data", "data", "tick", "tick", "close", "reconnect", "rflag", "acks", "acks"]
 
 
 def all_histories(depth, alphabet):
